@@ -497,6 +497,21 @@ fn read_operations_since_from_file(
         let read_all = possible_records == 1 && seek_point == size_as_u64;
         let no_more_smaller = possible_records <= 1 && (opp_time > since);
         if opp_time == since || no_more_smaller || read_all {
+            if opp_time == since {
+                // Several records can share one timestamp (a snapshot of many databases, a record
+                // repeated when the file rotates): start at the first of them
+                let mut first = seek_point;
+                while first >= size_as_u64 {
+                    f.seek(SeekFrom::Start(first - size_as_u64)).unwrap();
+                    match f.read(&mut time_buffer) {
+                        Ok(n) if n == OP_TIME_SIZE && u64::from_le_bytes(time_buffer) == since => {
+                            first = first - size_as_u64;
+                        }
+                        _ => break,
+                    }
+                }
+                f.seek(SeekFrom::Start(first + OP_TIME_SIZE as u64)).unwrap();
+            }
             log::debug!(
                 "found! {} {} {} {}",
                 possible_records,
